@@ -63,6 +63,13 @@ func (P *curvePoint) Valid() bool {
 // Try to generate a point on this curve from a chosen x-coordinate,
 // with a random sign.
 func (P *curvePoint) genPoint(x *big.Int, rand cipher.Stream) bool {
+	// A candidate at or above the field prime is not a coordinate: the point
+	// would be stored (and encoded) unreduced, and its own encoding would not
+	// decode. Let the caller try the next candidate.
+	if x.Cmp(P.c.p.P) >= 0 {
+		return false
+	}
+
 	// Compute the corresponding Y coordinate, if any
 	y2 := new(big.Int).Mul(x, x)
 	y2.Mul(y2, x)
